@@ -1080,6 +1080,62 @@ def c06_9(ck, prog):
                     'bus_connections_reload_policy no longer rebuilds client policies through the context')
 
 
+def c06_14(ck, prog):
+    """Reading the peer's supplementary groups: the retry grows the buffer against what it had."""
+    U = 'dbus/dbus-sysdeps-unix.c'
+    r = ck.rule('C06.14', 'when the kernel says the buffer for the peer\'s groups was too small, "did the required length '
+                'grow?" is asked against the capacity the buffer had: in add_groups_to_credentials the comparison of '
+                '`len` with the capacity (n_gids * sizeof (gid_t)) inside the retry loop is reached before the capacity '
+                'is recomputed from `len`', 'DOM',
+                breaks='the test compares the new length with itself and always says "no progress": for a peer with '
+                'more groups than the first buffer holds the function gives up and reports success with no group at '
+                'all, so <policy group="..."> sections are not applied to that peer', floor=1)
+    try:
+        fn = prog.fn('add_groups_to_credentials', U)
+    except AnalysisBroken:
+        r.skip('add_groups_to_credentials is not compiled in this configuration')
+        return
+    gs = {c['id'] for b, i, c in fn.calls('getsockopt')}
+    if not gs:
+        r.skip('SO_PEERGROUPS is not used in this configuration')
+        return
+    cap = [lhs for b, i, ev in fn.events() for lhs, how, rhs in written_lvalues(ev)
+           if (is_ref(lhs) or 'k' not in lhs) and lhs.get('name') == 'n_gids']
+    if not cap:
+        raise AnalysisBroken('add_groups_to_credentials: capacity variable n_gids not found')
+    cid = cap[0]['id']
+    tests = 0
+    for blk in fn.blocks.values():
+        t = blk.get('term')
+        if t and isinstance(t.get('cond'), dict):
+            names = {x.get('name') for x in walk(t['cond']) if is_ref(x)}
+            if 'len' in names and 'n_gids' in names and estr(t['cond']).count('<=') + estr(t['cond']).count('>') > 0:
+                blk['_growth_test'] = True
+                tests += 1
+    if not tests:
+        raise AnalysisBroken('add_groups_to_credentials: the comparison of len with the capacity was not found')
+
+    def on_event(user, ev, ctx):
+        if ev['ev'] == 'call' and ev['e'].get('id') in gs:
+            return 'asked'
+        for lhs, how, rhs in written_lvalues(ev):
+            if (is_ref(lhs) or 'k' not in lhs) and lhs.get('id') == cid and isinstance(rhs, dict) and \
+                    any(is_ref(x) and x.get('name') == 'len' for x in walk(rhs)) and user == 'asked':
+                return 'recomputed'
+        return user
+
+    def on_edge(user, bid, idx, atom, sense, ctx):
+        if fn.blocks[bid].get('_growth_test') and user == 'recomputed':
+            ctx.report('the capacity n_gids is recomputed from len before len is compared with it: the "did it grow" '
+                       'test can no longer tell', fn.blocks[bid]['term'].get('line'), key='self-compare')
+        return user
+    ex = Explorer(fn, init=None, on_event=on_event, on_edge=on_edge, track=None, cap=300000).run()
+    if ex.reports:
+        r.from_reports(ex.reports, keyfn=lambda k, rep: 'add_groups:growth-test')
+    else:
+        r.ok('add_groups:growth-test')
+
+
 def run(ck):
     ck.explanation = (
         'Static rules over bus/policy.c, bus/bus.c, bus/config-parser.c, bus/services.c, bus/activation.c: the '
@@ -1092,6 +1148,9 @@ def run(ck):
     ck.not_decided = ('string matching of attribute values; registry-dependent destination/sender matching; '
                       'eavesdrop/broadcast/fd-range value semantics beyond attribute coverage')
     for v, prog in ck.programs(thorough_variants=('B',)):
+        from rules.C09 import c09_11
+        c09_11(ck, prog, 'C06.13')
+        c06_14(ck, prog)
         c06_1(ck, prog)
         c06_2(ck, prog)
         c06_3(ck, prog)
